@@ -4,6 +4,7 @@
 From Coq Require Import Reals Qreals.
 From V Require Import lib.Common lib.Layout lib.RLib gen.GridArith gen.Combinators model.PairTables model.Callable
                       proof.LayoutLemmas proof.C01 proof.C02.
+From V Require Import model.NumFormat proof.NumFormatProofs.
 Local Open Scope Q_scope.
 
 (* header: delpot = cutoff/(ngrid-4), cutpot = cutoff, ngrid; then one block per potential in order *)
@@ -57,6 +58,20 @@ Print Assumptions c02_force_cell.
 Theorem c02_reject : forall pots cutoff ngrid, pots <> [] -> (ngrid mod 4 <> 0)%Z -> dlpoly_file pots cutoff ngrid = None.
 Proof. exact dlpoly_reject. Qed.
 Print Assumptions c02_reject.
+
+(* what the printed cells mean.  Energies and forces are printed with "% 14.7e"; the text of a cell reads back as a mantissa
+   of 8 digits and a decimal exponent: for a non-zero value the first digit is not zero and mantissa * 10^(exponent - 7) is the binary
+   floating-point value (-1)^neg * m * 2^e the writer held, rounded at the last printed digit, ties to even (a mantissa that rounds up
+   to 10^8 is printed as 1.0...0 with the next exponent) *)
+Theorem c02_cell_text : forall neg m e t, (0 <= m)%Z -> fmt_float F_147e neg m e = Some t ->
+  read_number t = Some (let '(M, x) := sci_parts 7 m e in mkp neg M 7 x).
+Proof. intros neg m e t Hm H. inversion H. apply (fmt_reads true 6 true 14 neg m e Hm). Qed.
+Theorem c02_cell_value : forall m e, (0 < m)%Z -> let '(n, q) := frac m e in let '(M, x) := sci_parts 7 m e in
+  (10 ^ 7 <= M < 10 ^ (7 + 1))%Z /\
+  exists s M0, ((M, x) = (M0, 7 - s)%Z \/ (M0 = 10 ^ (7 + 1) /\ M = 10 ^ 7 /\ x = 7 - s + 1)%Z) /\
+    (Z.abs (2 * M0 * (q * 10 ^ Z.max 0 (- s)) - 2 * (n * 10 ^ Z.max 0 s)) <= q * 10 ^ Z.max 0 (- s))%Z.
+Proof. exact (sci_parts_spec 7). Qed.
+Print Assumptions c02_cell_value.
 
 Example c02_example :
   let pots := [{| p_a := 0; p_b := 1; p_hasd := false |}] in
